@@ -456,5 +456,10 @@ def check(model, rep):
             (rep.holds if i.status == 'HOLDS' else (rep.violation if i.status == 'VIOLATION' else rep.cannot))(
                 'C09.dep.mate.' + i.rule.split('.')[1], i.construct, i.detail, i.loc)
     sxm.POSITIVE_ATOMS.clear()
+    # the formulas' quantity arithmetic is interpreted natively; the operator triples actually met are re-read from C06's dispatch model
+    from checks.solver_common import absorb_arith
+    used = sorted(t for t in sx.arith_log)
+    absorb_arith(model, rep, 'C09.dep.arith', used)
+    rep.analysed['operator_triples_used'] = [' '.join(t) for t in used]
     rep.assume('quantity operators are dimensionally sound and unit-blind (C05/C06)')
     rep.assume('scipy.interpolate.interp1d with default kind interpolates linearly between the tabulated rows')
